@@ -1,18 +1,35 @@
 """C17 - documented thread-safety: concurrent readers and independent topologies.
-Model: spec/Concurrency.tla (protocol of caches, environment caches and the components registry; exhaustive TLC run with the
-documented discipline, and the same model without it where TLC must find the reader write); binding: hook events of the
-library built with -DHWLOC_VERIF recorded by harness/hwv_threads.c and validated against spec/TraceConcurrency.tla."""
-import os, random, re
+Model: spec/Concurrency.tla (protocol of caches, environment caches and the components registry; exhaustive TLC runs with the
+documented discipline and balanced return paths, and the same model without them where TLC must find the reader write / the
+interference through the registry); spec/IndepCalls.tla + MC_IndepCalls.tla generate independent histories over every public entry
+point that takes the registry (Registry.tla), succeeding and failing; binding: hook events of the library built with
+-DHWLOC_VERIF recorded by harness/hwv_threads.c and validated against spec/TraceConcurrency.tla."""
+import os, random, re, json, collections
+import concurrent.futures as cf
 import vlib, corpus
 
 CFG = ("SPECIFICATION Spec\nCONSTANTS\n  Readers <- R\n  Indep <- I\n  NDist = %d\n  NAttr = %d\n  NEnv = %d\n  Discipline = %s\n  MaxModify = %d\n"
+       "  MaxLive = %d\n  Balance = %s\n"
        "INVARIANTS TypeOK NoReaderWrite NoRace RegistryOK\nCHECK_DEADLOCK FALSE\n")
 TRACE_CFG = "INIT TInit\nNEXT TNext\nPOSTCONDITION Accepted\nCHECK_DEADLOCK FALSE\n"
+GEN_CFG = ("SPECIFICATION Spec\nCONSTANTS\n  Threads <- Th\n  Slots <- Sl\n  Variants <- Va\n  MaxLen = %d\n  Mode = \"%s\"\n"
+           "INVARIANTS ModelBalanced AlphabetOK\nCHECK_DEADLOCK FALSE\n")
+NOLIBXML = "xmlbackend nolibxml"      # behaviour line: this behaviour is recorded with HWLOC_LIBXML=0 (the variable is cached process-wide)
 
 
 def mc_module(nr, ni):
     return ("---- MODULE MC_Concurrency_gen ----\nEXTENDS Concurrency\nR == {%s}\nI == {%s}\n====\n"
             % (", ".join('"r%d"' % k for k in range(nr)), ", ".join('"i%d"' % k for k in range(ni))))
+
+
+def gen_module(nt):
+    return ("---- MODULE MC_IndepCalls_gen ----\nEXTENDS MC_IndepCalls\nTh == {%s}\nSl == {0, 1}\nVa == {0, 1, 2}\n====\n"
+            % ", ".join(str(k) for k in range(nt)))
+
+
+def calls_block(mode, nt, seed, sched):
+    """sched: list of (tid, [name, a, b]) in schedule order"""
+    return ["calls %s %d %d" % (mode, nt, seed)] + ["c %d %s %d %d" % (t, op[0], op[1], op[2]) for t, op in sched] + ["endcalls"]
 
 
 def run(ctx, replay=None):
@@ -24,7 +41,10 @@ def run(ctx, replay=None):
         p = ctx.path("replay-%d.beh" % random.randrange(1 << 30))
         open(p, "w").write(text)
         t = p + ".ndjson"
-        ctx.record(exe, p, t, env=env)
+        e = dict(env)
+        if NOLIBXML in text.split("\n"):
+            e["HWLOC_LIBXML"] = "0"
+        ctx.record(exe, p, t, env=e)
         return ctx.validate("TraceConcurrency", t, cfg=TRACE_CFG, nshards=1)
 
     if replay:
@@ -38,16 +58,45 @@ def run(ctx, replay=None):
     thorough = ctx.tier == "thorough"
     rng = random.Random(ctx.seed)
     # (1) the protocol model, exhaustively: with the documented discipline the properties are invariants ...
-    nr, ni = (4, 3) if thorough else (3, 2)
+    # (the two halves of the model share no variable: the product run keeps few independent threads, the registry gets its own run below)
+    nr, ni = (4, 2) if thorough else (3, 1)
     gen = [("MC_Concurrency_gen.tla", mc_module(nr, ni))]
-    out, st = ctx.tlc_mc("MC_Concurrency_gen", CFG % (2, 2, 2, "TRUE", 2), tag="protocol_ok", workers=8, extra_modules=gen, timeout=2400)
+    out, st = ctx.tlc_mc("MC_Concurrency_gen", CFG % (2, 2, 2, "TRUE", 2, 1, "TRUE"), tag="protocol_ok", workers=8, extra_modules=gen, timeout=2400)
     if st["error"] or st["rc"] != 0:
         raise vlib.Infra("Concurrency.tla violates its own properties under the documented discipline (model-level): %s\n%s" % (st["error"], out[-2000:]))
     # ... and without it TLC must find the reader write (non-vacuity)
-    out, st = ctx.tlc_mc("MC_Concurrency_gen", CFG % (1, 1, 1, "FALSE", 1), tag="protocol_race", workers=4, extra_modules=gen, timeout=600)
+    out, st = ctx.tlc_mc("MC_Concurrency_gen", CFG % (1, 1, 1, "FALSE", 1, 1, "TRUE"), tag="protocol_race", workers=4, extra_modules=gen, timeout=600)
     if "Invariant NoReaderWrite is violated" not in out and "Invariant NoRace is violated" not in out:
         raise vlib.Infra("non-vacuity failed: without the discipline TLC did not find the race\n" + out[-1500:])
     ctx.extra["non_vacuity"] = "without the documented discipline TLC finds the reader write (NoReaderWrite violated), as it must"
+    # the registry alone (the two halves of the model share no variable): more threads owning several topologies, every call of the
+    # alphabet in its succeeding and failing variant, every footprint the balance law allows; and with one unbalanced return path,
+    # where TLC must find the interference (non-vacuity of RegistryOK and of the balance law).  These runs and the generation of the
+    # independent histories (2b) are independent of each other: they run side by side
+    nreg = 4 if thorough else 3
+    nsim, per_thread = (80, 24) if thorough else (16, 24)
+    jobs = {
+        "registry_ok": lambda: ctx.tlc_mc("MC_Concurrency_gen", CFG % (1, 1, 1, "TRUE", 1, 2, "TRUE"), tag="registry_ok", workers=4,
+                                          extra_modules=[("MC_Concurrency_gen.tla", mc_module(0, nreg))], timeout=2400),
+        "registry_broken": lambda: ctx.tlc_mc("MC_Concurrency_gen", CFG % (1, 1, 1, "TRUE", 1, 1, "FALSE"), tag="registry_broken", workers=2,
+                                              extra_modules=[("MC_Concurrency_gen.tla", mc_module(0, 2))], timeout=600),
+        "calls_bfs": lambda: ctx.tlc_mc("MC_IndepCalls_gen", GEN_CFG % (8, "bfs") + "VIEW View\nACTION_CONSTRAINT Emit\n", tag="calls_bfs", workers=2,
+                                        extra_modules=[("MC_IndepCalls_gen.tla", gen_module(1))], heap="2g", timeout=900),
+    }
+    for nt_ in (2, 3):
+        jobs["calls_sim%d" % nt_] = (lambda nt=nt_: ctx.tlc_mc("MC_IndepCalls_gen", GEN_CFG % (per_thread * nt, "sim"), tag="calls_sim%d" % nt, workers=1,
+                                                               simulate="num=%d" % nsim, depth=per_thread * nt + 2,
+                                                               extra_modules=[("MC_IndepCalls_gen.tla", gen_module(nt))], heap="2g", timeout=900))
+    with cf.ThreadPoolExecutor(max_workers=len(jobs)) as ex:
+        futs = {k: ex.submit(f) for k, f in jobs.items()}
+        mc = {k: f.result() for k, f in futs.items()}
+    out, st = mc["registry_ok"]
+    if st["error"] or st["rc"] != 0:
+        raise vlib.Infra("Concurrency.tla: RegistryOK is not an invariant with balanced return paths (model-level): %s\n%s" % (st["error"], out[-2000:]))
+    out, st = mc["registry_broken"]
+    if "Invariant RegistryOK is violated" not in out:
+        raise vlib.Infra("non-vacuity failed: with an unbalanced return path TLC did not find the interference\n" + out[-1500:])
+    ctx.extra["non_vacuity_registry"] = "with a return path that breaks the balance law TLC finds RegistryOK violated, as it must"
 
     # (2) real executions
     srcs = [("synthetic", d) for d in ["node:2 core:2 pu:2", "pack:2 core:2 pu:2", "[numa] pack:2 [numa] core:2 pu:2", "pack:2 l2:2 l1:1 core:1 pu:2", "pu:4",
@@ -70,20 +119,102 @@ def run(ctx, replay=None):
                      "readers %d %d 1 %d" % (T, rounds, rng.randrange(1 << 30)),
                      "indep %d %d %d" % (rng.choice([2, 4, 8, 12]), rng.choice([2, 4, 6]), rng.randrange(1 << 30))]
             behs.append("\n".join(lines) + "\n")
-    ctx.samples = [behs[0], behs[len(behs) // 2], behs[-1]]
+
+    # (2b) independent histories over the alphabet of Registry.tla / IndepCalls.tla, generated by TLC:
+    #  - one thread, breadth-first under the view "set of enabled outcome classes": one history per generated transition, hence
+    #    every outcome class of every entry point; python keeps, per class, the first histories found (all of them in the
+    #    thorough tier up to a cap) and runs each in 2-4 free-running threads;
+    #  - 2 and 3 threads, coverage-guided random interleavings: each walk is run with its schedule forced call by call, and
+    #    free-running.
+    out, st = mc["calls_bfs"]
+    if st["error"] or st["rc"] != 0:
+        raise vlib.Infra("MC_IndepCalls (bfs): %s\n%s" % (st["error"], out[-2000:]))
+    edges = list(vlib.tlc_printed(out, "EDGE"))
+    byclass = collections.defaultdict(list)
+    for h in edges:
+        byclass[json.dumps(h[-1]["c"])].append(h)
+    if len(byclass) < 40:
+        raise vlib.Infra("MC_IndepCalls (bfs) emitted only %d outcome classes" % len(byclass))
+    per_class, cap = (12, 600) if thorough else (3, 160)
+    chosen = []
+    for c in sorted(byclass):
+        hs = sorted(byclass[c], key=len)          # stable: the shortest first, in TLC's order
+        head, tail = hs[:1], hs[1:]
+        rng.shuffle(tail)
+        chosen += head + tail[:per_class - 1]
+    chosen = chosen[:cap] if len(chosen) > cap else chosen
+    walks = []
+    for nt in (2, 3):
+        out, st = mc["calls_sim%d" % nt]
+        ws = list(vlib.tlc_printed(out, "SIM"))
+        if len(ws) < nsim // 2:
+            raise vlib.Infra("MC_IndepCalls (sim, %d threads) printed %d walks:\n%s" % (nt, len(ws), out[-1500:]))
+        walks += [(nt, w) for w in ws]
+    cbehs = []
+    classes = collections.Counter()
+    for k, h in enumerate(chosen):
+        nt = rng.choice([2, 3, 4])
+        sched = [(t, e["op"]) for e in h for t in range(nt)]          # every thread runs the history; free-running, the line order is immaterial
+        lines = ["reset"] + (["setup synthetic pu:4"] if k % 2 else []) + ([NOLIBXML] if k % 4 >= 2 else [])
+        lines += calls_block("free", nt, rng.randrange(1 << 30), sched)
+        cbehs.append("\n".join(lines) + "\n")
+        for e in h:
+            classes[json.dumps(e["c"])] += nt
+    for k, (nt, w) in enumerate(walks):
+        sched = [(e["t"], e["op"]) for e in w]
+        lines = ["reset"] + (["setup synthetic pu:4"] if k % 2 else []) + ([NOLIBXML] if k % 4 >= 2 else [])
+        lines += calls_block("sched", nt, rng.randrange(1 << 30), sched) + calls_block("free", nt, rng.randrange(1 << 30), sched)
+        cbehs.append("\n".join(lines) + "\n")
+        for e in w:
+            classes[json.dumps(e["c"])] += 2
+    missing = [c for c in byclass if not classes[c]]
+    if missing:
+        raise vlib.Infra("outcome classes of the alphabet without a behaviour: %s" % missing)
+
+    ctx.samples = [behs[0], behs[-1], cbehs[0], cbehs[len(chosen) // 2], cbehs[-1]]
     bf = ctx.path("behaviours.txt")
     open(bf, "w").write("".join(behs))
     tf = ctx.path("trace.ndjson")
     ctx.record(exe, bf, tf, timeout=3000, parallel=2, env=env)       # few recorders at a time: the threads inside need the cores
     rejs = ctx.validate("TraceConcurrency", tf, cfg=TRACE_CFG, nshards=4, timeout=1200)
     ctx.handle_rejections(rejs, behs, replay_fn)
+    outcome = collections.Counter()
+    for tag, e2 in (("libxml", {}), ("nolibxml", {"HWLOC_LIBXML": "0"})):
+        part = [b for b in cbehs if (NOLIBXML in b.split("\n")) == (tag == "nolibxml")]
+        if not part:
+            continue
+        bf = ctx.path("calls-%s.txt" % tag)
+        open(bf, "w").write("".join(part))
+        tf = ctx.path("calls-%s.ndjson" % tag)
+        ctx.record(exe, bf, tf, timeout=3000, parallel=2, env=dict(env, **e2))
+        for line in open(tf, errors="replace"):            # coverage accounting only (what the calls returned), nothing is judged here
+            if line.startswith('{"e":"calls"'):
+                try:
+                    ev = json.loads(line)
+                except ValueError:
+                    continue
+                if ev.get("stage") != "run":
+                    continue
+                for prog, res in zip(ev["prog"], ev["res"]):
+                    for op, r in zip(prog, res):
+                        outcome["%s:%s" % (op[0], "ok" if r[0] >= 0 else "NOT-MADE" if r[0] == -99 else r[1] if r[1] != "0" else "fail")] += 1
+        rejs = ctx.validate("TraceConcurrency", tf, cfg=TRACE_CFG, nshards=4, timeout=1200)
+        ctx.handle_rejections(rejs, part, replay_fn)
     return ctx.finish(
         rule="the protocol model (caches, environment caches, components registry) is explored exhaustively by TLC for %d readers and %d independent threads with the documented "
-             "discipline (NoReaderWrite, NoRace, RegistryOK are invariants) and without it (TLC must find the reader write); on the real library built with -DHWLOC_VERIF each behaviour "
-             "= one topology (synthetic families and bundled XML with distances/memattrs/cpukinds), the whole consulting battery on a shared-memory adopted read-only copy, reader "
-             "phases of 2-16 threads after load and after modify+refresh with seeded sched_yield patterns, and 2-12 threads running independent histories; hook events and digests "
-             "are validated against TraceConcurrency.tla. Non-trivial = a behaviour with at least one multi-threaded phase." % (nr, ni),
+             "discipline (NoReaderWrite, NoRace, RegistryOK are invariants) and without it (TLC must find the reader write), and the registry alone for %d threads owning up to 2 "
+             "topologies each over every entry point that takes the registry, succeeding and failing, with every footprint the balance law allows (RegistryOK invariant) and with one "
+             "unbalanced return path (TLC must find the interference); on the real library built with -DHWLOC_VERIF each behaviour = one topology (synthetic families and bundled XML "
+             "with distances/memattrs/cpukinds), the whole consulting battery on a shared-memory adopted read-only copy, reader phases of 2-16 threads after load and after "
+             "modify+refresh with seeded sched_yield patterns, and 2-12 threads running independent histories; plus TLC-generated independent histories over the call alphabet "
+             "(topology init/dup/shmem adopt, destroy, shmem get_length/write, diff load/export by buffer and by file, each succeeding and failing: %d outcome classes, all covered; "
+             "BFS edge cover run in 2-4 free-running threads, interleaved walks of 2-3 threads run with the schedule forced and free-running, with and without a topology held by "
+             "the main thread, libxml and nolibxml backends); hook events, results and digests are validated against TraceConcurrency.tla (results equal to the single-threaded run, "
+             "balance law per call, users = live topologies at the end). Non-trivial = a behaviour with at least one multi-threaded phase."
+             % (nr, ni, nreg, len(byclass)),
         assumptions=["race-freedom is decided for the shared state the model names (distances and memattr caches, environment caches, components registry); the adopted read-only copy extends "
                      "it to every byte of topology memory, but a racy write to another process-global in a reader path would be seen only if hooked",
-                     "real interleavings are sampled (exploration), the exhaustive part is the protocol model; no ThreadSanitizer verdict is used"],
-        extra={"behaviours": len(behs)})
+                     "real interleavings are sampled (exploration), the exhaustive part is the protocol model; no ThreadSanitizer verdict is used",
+                     "the model of what a call does to the thread's own state (IndepCalls.tla) only steers generation; allocation-failure return paths of the entry points are not exercised"],
+        extra={"behaviours": len(behs) + len(cbehs), "call_histories": {"bfs_edges": len(edges), "bfs_chosen": len(chosen), "walks": len(walks), "outcome_classes": len(byclass)},
+               "call_outcomes": dict(sorted(outcome.items()))})
